@@ -81,6 +81,11 @@ def respell(argv, spelling, outdir):
             elif spelling == "dotdot":
                 os.makedirs(os.path.join(outdir, "sub"), exist_ok=True)
                 out[i] = "sub/../" + out[i]
+            elif spelling == "noext":
+                # a name without extension (writers that add a default extension must check the
+                # name they really write to); plot exports derive the format from the extension
+                if out[i - 1] not in ("--save_plot", "--serialize_plot"):
+                    out[i] = os.path.splitext(out[i])[0]
             elif spelling == "tilde":
                 # an unexpanded '~' (quoted on the shell, or taken from a config file) is an
                 # ordinary directory name: ./~/<file>
@@ -265,7 +270,7 @@ def k_cell(run, case):
         if case["scenario"].startswith("evo_res"):
             ctx["zips"] = make_res_zips(work, ind)
         srng = run.rng(case, stream=6)
-        ctx["spelling"] = case.get("spelling") or ["plain", "plain", "dot", "abs", "dotdot", "tilde"][srng.integers(6)]
+        ctx["spelling"] = case.get("spelling") or ["plain", "plain", "dot", "abs", "dotdot", "tilde", "noext"][srng.integers(7)]
         # A) discover the outputs of this scenario in an empty directory, warnings off
         outA = os.path.join(work, "A")
         os.makedirs(outA)
